@@ -485,7 +485,9 @@ func c36run(r *vrun.Run, w *c36world, cfg c36cfg, ops []int, outcomes bool) (non
 
 func TestVerif_C36(t *testing.T) {
 	vrun.Main(t, "C36", func(r *vrun.Run) {
-		defer debug.SetGCPercent(debug.SetGCPercent(1000)) // allocation heavy, tiny live heap: fewer GC cycles
+		// allocation heavy with a tiny live heap: far fewer GC cycles (bounded by a soft memory limit)
+		defer debug.SetGCPercent(debug.SetGCPercent(4000))
+		defer debug.SetMemoryLimit(debug.SetMemoryLimit(4 << 30))
 		r.Rule = "for every (n,p) of the grid accepted by NewCountingBloomFilter: every history of 1..depth operations over the 15-operation alphabet " +
 			"(adds of a,b; removals of a,b and of the never added c; queries; Count; Delete); after every step the server side hash and counter key are " +
 			"snapshotted and, while the precondition holds, ExistsMulti/ItemMinCountMulti([b,a,c]) are probed. State = (configuration, history). " +
